@@ -1,7 +1,8 @@
 (* inter_drv: models of the inter-procedural analyzers (Ana/InterTD.v, Ana/InterBU.v) on textual
    inter-procedural programs; same format as harness/intertext.hpp / inter.cpp.
    Default mode: run the model (top-down: thr = 0 only; rec=1 runs the model of Ana/InterTDRec.v;
-   bottom-up: interval summaries, call graph without cycles), print tables and summaries, and
+   bottom-up: interval summaries, call graph without cycles; with bumodel=rec any call graph:
+   Ana/InterBURec.v), print tables and summaries, and
    run the Coq-verified certificate checker on the model's own result.
    Mode --validate: each line is "<case> ### <implementation answer>"; the Coq-verified checker
    (td_validate / bu_validate, theorems C09_validated_results_sound / C10_validated_results_sound)
@@ -176,6 +177,13 @@ let eval toks =
           end
     end else begin
       if opt c "budom" "itv" <> "itv" then "UNMODELLED"
+      else if opt c "bumodel" "dag" = "rec" then begin
+        (* any call graph, recursive components included: Ana/InterBURec.v (theorems of
+           Props/Properties_C10_rec.v); the error flag is raised by fuel exhaustion only *)
+        let r = bur_run c.prog voff delay desc efuel wtos c.init in
+        if r.b_err then "MODEL-ERROR out-of-fuel"
+        else dump c r.b_pre r.b_post (bu_summaries c.prog r.b_sum)
+      end
       else
         let r = bu_run c.prog voff delay desc efuel wtos c.init in
         if r.b_err then "UNMODELLED"
